@@ -1,9 +1,19 @@
 import PiqpProofs.Basic
 import PiqpModel.Pack
+import PiqpModel.Solver
+import Mathlib.Tactic.Linarith
+import Mathlib.Algebra.Order.Field.Basic
 
 /-!
 # C08 — result vectors are well-formed at every stopping point
 -/
+
+set_option linter.unusedVariables false
+set_option linter.unusedTactic false
+set_option linter.unreachableTactic false
+set_option linter.unnecessarySeqFocus false
+set_option linter.unusedSimpArgs false
+set_option linter.unusedSectionVars false
 
 namespace Piqp.C08
 
@@ -29,4 +39,530 @@ theorem swapLoop_mem (idx : Vector (Fin n) n) (k : Nat) (v : Vec K n) (i : Fin n
         · exact ⟨j, rfl⟩
     · exact ih v
 
+/-- the packing `setup_lb_data` / `setup_ub_data` produce: packed slot `a` holds the `a`-th finite bound, so the
+    variable indices are strictly increasing on the active head -/
+def StrictIdx (idx : Vector (Fin n) n) (cnt : Nat) : Prop :=
+  ∀ a b : Fin n, a.val < b.val → b.val < cnt → idx[a].val < idx[b].val
+
+theorem StrictIdx.ge {idx : Vector (Fin n) n} {cnt : Nat} (h : StrictIdx idx cnt) :
+    ∀ (k : Nat) (hk : k < n), k < cnt → k ≤ (idx[k]'hk).val := by
+  intro k
+  induction k with
+  | zero => intro _ _; exact Nat.zero_le _
+  | succ k ih =>
+    intro hk hc
+    have h1 := ih (Nat.lt_of_succ_lt hk) (Nat.lt_of_succ_lt hc)
+    have h2 := h ⟨k, Nat.lt_of_succ_lt hk⟩ ⟨k + 1, hk⟩ (Nat.lt_succ_self k) hc
+    simp only [Fin.getElem_fin] at h2
+    omega
+
+theorem StrictIdx.inj {idx : Vector (Fin n) n} {cnt : Nat} (h : StrictIdx idx cnt) (a b : Fin n)
+    (ha : a.val < cnt) (hb : b.val < cnt) (hab : idx[a] = idx[b]) : a = b := by
+  rcases Nat.lt_trichotomy a.val b.val with hlt | heq | hgt
+  · have := h a b hlt hb; rw [hab] at this; exact absurd this (Nat.lt_irrefl _)
+  · exact Fin.ext heq
+  · have := h b a hgt ha; rw [hab] at this; exact absurd this (Nat.lt_irrefl _)
+
+/-- invariant of the descending swap loop with `k` steps left -/
+theorem swapLoop_spec (idx : Vector (Fin n) n) (cnt : Nat) (hcn : cnt ≤ n) (hs : StrictIdx idx cnt) (fill : K) (orig : Vec K n) :
+    ∀ (k : Nat), k ≤ cnt → ∀ v : Vec K n,
+      (∀ t : Fin n, k ≤ t.val → t.val < cnt → v[idx[t]] = orig[t]) →
+      (∀ t : Fin n, t.val < k → v[t] = orig[t]) →
+      (∀ j : Fin n, k ≤ j.val → (∀ t : Fin n, k ≤ t.val → t.val < cnt → idx[t] ≠ j) → v[j] = fill) →
+      (∀ t : Fin n, t.val < cnt → (swapLoop idx k v)[idx[t]] = orig[t]) ∧
+      (∀ j : Fin n, (∀ t : Fin n, t.val < cnt → idx[t] ≠ j) → (swapLoop idx k v)[j] = fill) := by
+  intro k
+  induction k with
+  | zero =>
+    intro _ v hp _ hr
+    exact ⟨fun t ht => hp t (Nat.zero_le _) ht, fun j hj => hr j (Nat.zero_le _) (fun t _ ht => hj t ht)⟩
+  | succ k ih =>
+    intro hk v hp hh hr
+    have hkn : k < n := Nat.lt_of_lt_of_le hk hcn
+    have hkc : k < cnt := hk
+    unfold swapLoop
+    simp only [hkn, dif_pos]
+    have hge : k ≤ (idx[k]'hkn).val := hs.ge k hkn hkc
+    apply ih (Nat.le_of_succ_le hk)
+    · -- placed
+      intro t htk htc
+      rcases Nat.eq_or_lt_of_le htk with heq | hlt
+      · have : t = ⟨k, hkn⟩ := Fin.ext heq.symm
+        subst this
+        simp only [Fin.getElem_fin, Vector.getElem_swap_right]
+        exact hh ⟨k, hkn⟩ (Nat.lt_succ_self k)
+      · have hlt' := hs ⟨k, hkn⟩ t hlt htc
+        simp only [Fin.getElem_fin] at hlt' ⊢
+        rw [Vector.getElem_swap_of_ne (by omega) (by omega)]
+        have := hp t hlt htc
+        simpa only [Fin.getElem_fin] using this
+    · -- head
+      intro t ht
+      simp only [Fin.getElem_fin]
+      rw [Vector.getElem_swap_of_ne (by omega) (by omega)]
+      have := hh t (Nat.lt_succ_of_lt ht)
+      simpa only [Fin.getElem_fin] using this
+    · -- rest
+      intro j hj hne
+      have hjk : idx[(⟨k, hkn⟩ : Fin n)] ≠ j := hne ⟨k, hkn⟩ (Nat.le_refl k) hkc
+      have hjk' : (idx[k]'hkn).val ≠ j.val := fun h => hjk (Fin.ext h)
+      rcases Nat.eq_or_lt_of_le hj with heq | hlt
+      · -- j = k : receives the old content of slot idx k, which is fill
+        have hj' : j = ⟨k, hkn⟩ := Fin.ext heq.symm
+        subst hj'
+        simp only [Fin.getElem_fin, Vector.getElem_swap_left]
+        have hgt : k + 1 ≤ (idx[k]'hkn).val := by
+          have : (idx[k]'hkn).val ≠ k := hjk'
+          omega
+        have := hr (idx[k]'hkn) hgt (by
+          intro t htk htc heq
+          have := hs.inj t ⟨k, hkn⟩ htc hkc (by simpa only [Fin.getElem_fin] using heq)
+          have : t.val = k := congrArg Fin.val this
+          omega)
+        simpa only [Fin.getElem_fin] using this
+      · simp only [Fin.getElem_fin]
+        rw [Vector.getElem_swap_of_ne (by omega) (fun h => hjk' h.symm)]
+        have := hr j hlt (fun t htk htc => hne t (Nat.le_of_succ_le htk) htc)
+        simpa only [Fin.getElem_fin] using this
+
+/-- **C08, re-indexing.** `restore_box_dual` on one buffer: for every strictly increasing packing of `cnt ≤ n` slots
+    (every one of the 2ⁿ finite/infinite patterns of one side), packed slot `t` ends up at variable `idx t` and every
+    variable without a finite bound holds exactly the fill value (`0` for multipliers, `+∞` for slacks). -/
+theorem restoreBox_spec (b : BoxSide K n) (hcn : b.cnt ≤ n) (hs : StrictIdx b.idx b.cnt) (fill : K) (v : Vec K n) :
+    (∀ t : Fin n, t.val < b.cnt → (restoreBox b fill v)[b.idx[t]] = v[t]) ∧
+    (∀ j : Fin n, (∀ t : Fin n, t.val < b.cnt → b.idx[t] ≠ j) → (restoreBox b fill v)[j] = fill) := by
+  unfold restoreBox
+  rw [Nat.min_eq_left hcn]
+  apply swapLoop_spec b.idx b.cnt hcn hs fill v b.cnt (Nat.le_refl _)
+  · intro t h1 h2; omega
+  · intro t ht; simp [ht]
+  · intro j hj _
+    have : ¬ j.val < b.cnt := by omega
+    simp [this]
+
+/-- invariant of the packing loop after looking at variables `0 … k-1` -/
+structure PackInv (keep : K → Bool) (store : K → K) (x : Vec K n) (k : Nat) (r : Nat × Vector (Fin n) n × Vec K n) : Prop where
+  cnt_le : r.1 ≤ k
+  lt : ∀ a : Fin n, a.val < r.1 → r.2.1[a].val < k
+  strict : StrictIdx r.2.1 r.1
+  kept : ∀ a : Fin n, a.val < r.1 → ∀ j : Fin n, r.2.1[a] = j → keep x[j] = true ∧ r.2.2[a] = store x[j]
+  all : ∀ j : Fin n, j.val < k → keep x[j] = true → ∃ a : Fin n, a.val < r.1 ∧ r.2.1[a] = j
+
+theorem set_get {α : Type} (v : Vector α n) (c : Nat) (hc : c < n) (y : α) (i : Fin n) :
+    (v.set c y hc)[i] = if c = i.val then y else v[i] := by
+  simp only [Fin.getElem_fin, Vector.getElem_set]
+
+theorem packLoop_inv (keep : K → Bool) (store : K → K) (x : Vec K n) (idx0 : Vector (Fin n) n) (val0 : Vec K n) :
+    ∀ k : Nat, k ≤ n → PackInv keep store x k (packLoop keep store x k (0, idx0, val0)) := by
+  intro k
+  induction k with
+  | zero =>
+    intro _
+    exact ⟨Nat.le_refl 0, fun a h => absurd h (Nat.not_lt_zero _), fun a b _ h => absurd h (Nat.not_lt_zero _),
+      fun a h => absurd h (Nat.not_lt_zero _), fun j h => absurd h (Nat.not_lt_zero _)⟩
+  | succ k ih =>
+    intro hk
+    have hkn : k < n := hk
+    have I := ih (Nat.le_of_succ_le hk)
+    unfold packLoop
+    generalize packLoop keep store x k (0, idx0, val0) = r at I
+    obtain ⟨cnt, idx, val⟩ := r
+    simp only [hkn, dif_pos]
+    by_cases hkeep : keep x[k] = true
+    · have hc : cnt < n := Nat.lt_of_le_of_lt I.cnt_le hkn
+      simp only [hkeep, if_true, hc, dif_pos]
+      have Ilt := I.lt; have Istrict := I.strict; have Ikept := I.kept; have Iall := I.all
+      simp only at Ilt Istrict Ikept Iall
+      refine ⟨Nat.succ_le_succ I.cnt_le, ?_, ?_, ?_, ?_⟩
+      · intro a ha
+        simp only at ha
+        simp only [set_get]
+        split
+        · exact Nat.lt_succ_self k
+        · exact Nat.lt_succ_of_lt (Ilt a (by omega))
+      · intro a b hab hb
+        simp only at hb
+        simp only [set_get]
+        by_cases hbc : cnt = b.val
+        · have hac : ¬ cnt = a.val := by omega
+          simp only [hbc, hac, if_true, if_false]
+          have := Ilt a (by omega)
+          rw [← hbc]; simp only [hac, if_false]; exact this
+        · have hac : ¬ cnt = a.val := by omega
+          simp only [hbc, hac, if_false]
+          exact Istrict a b hab (by omega)
+      · intro a ha j hj
+        simp only at ha
+        simp only [set_get] at hj ⊢
+        by_cases hac : cnt = a.val
+        · simp only [hac, if_true] at hj ⊢
+          subst hj
+          exact ⟨hkeep, rfl⟩
+        · simp only [hac, if_false] at hj ⊢
+          exact Ikept a (by omega) j hj
+      · intro j hj hkj
+        by_cases hjk : j.val = k
+        · refine ⟨⟨cnt, hc⟩, Nat.lt_succ_self cnt, ?_⟩
+          simp only [set_get, if_true]
+          exact Fin.ext hjk.symm
+        · obtain ⟨a, ha, hia⟩ := Iall j (by omega) hkj
+          refine ⟨a, Nat.lt_succ_of_lt ha, ?_⟩
+          have hac : ¬ cnt = a.val := by omega
+          simp only [set_get, hac, if_false]
+          exact hia
+    · simp only [hkeep, Bool.false_eq_true, if_false]
+      refine ⟨Nat.le_succ_of_le I.cnt_le, fun a ha => Nat.lt_succ_of_lt (I.lt a ha), I.strict, I.kept, ?_⟩
+      intro j hj hkj
+      by_cases hjk : j.val = k
+      · have : x[j] = x[k] := by simp only [Fin.getElem_fin, hjk]
+        rw [this] at hkj; exact absurd hkj hkeep
+      · exact I.all j (by omega) hkj
+
+section setup
+variable [Neg K] [LT K] [DecidableLT K] [Zero K] [One K]
+
+/-- `setup_lb_data` packs exactly the variables with a finite lower bound (`x_lb > -PIQP_INF`), in increasing order,
+    storing the negated bound -/
+theorem setupLb_packed (cs : Consts K) (old : BoxSide K n) (x : Vec K n) :
+    let b := setupLb cs old (some x)
+    b.cnt ≤ n ∧ StrictIdx b.idx b.cnt ∧
+    (∀ a : Fin n, a.val < b.cnt → -cs.piqpInf < x[b.idx[a]] ∧ b.val[a] = -x[b.idx[a]]) ∧
+    (∀ j : Fin n, -cs.piqpInf < x[j] → ∃ a : Fin n, a.val < b.cnt ∧ b.idx[a] = j) := by
+  have I := packLoop_inv (fun v => decide (-cs.piqpInf < v)) (fun v => -v) x old.idx old.val n (Nat.le_refl n)
+  simp only [setupLb]
+  refine ⟨I.cnt_le, I.strict, fun a ha => ?_, fun j hj => I.all j j.isLt (by simpa using hj)⟩
+  have := I.kept a ha _ rfl
+  exact ⟨by simpa using this.1, this.2⟩
+
+theorem setupUb_packed (cs : Consts K) (old : BoxSide K n) (x : Vec K n) :
+    let b := setupUb cs old (some x)
+    b.cnt ≤ n ∧ StrictIdx b.idx b.cnt ∧
+    (∀ a : Fin n, a.val < b.cnt → x[b.idx[a]] < cs.piqpInf ∧ b.val[a] = x[b.idx[a]]) ∧
+    (∀ j : Fin n, x[j] < cs.piqpInf → ∃ a : Fin n, a.val < b.cnt ∧ b.idx[a] = j) := by
+  have I := packLoop_inv (fun v => decide (v < cs.piqpInf)) (fun v => v) x old.idx old.val n (Nat.le_refl n)
+  simp only [setupUb]
+  refine ⟨I.cnt_le, I.strict, fun a ha => ?_, fun j hj => I.all j j.isLt (by simpa using hj)⟩
+  have := I.kept a ha _ rfl
+  exact ⟨by simpa using this.1, this.2⟩
+
+/-- **C08, end to end for one side.** After `setup_lb_data(x_lb)`, `restore_box_dual` returns, for every variable `j`:
+    exactly `fill` if `x_lb(j)` is not finite, and the packed entry of its slot otherwise — for every `n` and every one of
+    the finite/infinite patterns. -/
+theorem restore_after_setupLb (cs : Consts K) (old : BoxSide K n) (x : Vec K n) (fill : K) (v : Vec K n) :
+    let b := setupLb cs old (some x)
+    (∀ j : Fin n, ¬ (-cs.piqpInf < x[j]) → (restoreBox b fill v)[j] = fill) ∧
+    (∀ a : Fin n, a.val < b.cnt → (restoreBox b fill v)[b.idx[a]] = v[a]) := by
+  intro b
+  obtain ⟨h1, h2, h3, h4⟩ := setupLb_packed cs old x
+  obtain ⟨r1, r2⟩ := restoreBox_spec b h1 h2 fill v
+  refine ⟨fun j hj => r2 j (fun t ht heq => hj ?_), r1⟩
+  exact heq ▸ (h3 t ht).1
+
+theorem restore_after_setupUb (cs : Consts K) (old : BoxSide K n) (x : Vec K n) (fill : K) (v : Vec K n) :
+    let b := setupUb cs old (some x)
+    (∀ j : Fin n, ¬ (x[j] < cs.piqpInf) → (restoreBox b fill v)[j] = fill) ∧
+    (∀ a : Fin n, a.val < b.cnt → (restoreBox b fill v)[b.idx[a]] = v[a]) := by
+  intro b
+  obtain ⟨h1, h2, h3, h4⟩ := setupUb_packed cs old x
+  obtain ⟨r1, r2⟩ := restoreBox_spec b h1 h2 fill v
+  refine ⟨fun j hj => r2 j (fun t ht heq => hj ?_), r1⟩
+  exact heq ▸ (h3 t ht).1
+end setup
+
+/-- non-vacuity: `n = 3`, bounds `(-∞, l, l')`: the pattern on which an ascending loop would go wrong -/
+example : StrictIdx (#v[(1 : Fin 3), 2, 0]) 2 := by
+  unfold StrictIdx; decide
+
+end Piqp.C08
+
+/-! ## The cone: positivity of slacks and multipliers is an invariant of the step rule and of the whole loop -/
+
+namespace Piqp.C08
+section cone
+variable {K : Type} [Field K] [LinearOrder K] [IsStrictOrderedRing K]
+variable {n p m : Nat}
+
+theorem vmin_le_left (a b : K) : vmin a b ≤ a := by
+  unfold vmin; split
+  · rename_i h; exact le_of_lt h
+  · exact le_refl a
+
+theorem vmin_le_right (a b : K) : vmin a b ≤ b := by
+  unfold vmin; split
+  · exact le_refl b
+  · rename_i h; exact not_lt.mp h
+
+theorem vmin_pos (a b : K) (ha : 0 < a) (hb : 0 < b) : 0 < vmin a b := by
+  unfold vmin; split <;> assumption
+
+/-- one block of the fraction-to-boundary search as a fold: positivity, monotonicity and the bound for every index -/
+theorem fold_min_spec (q : Nat) (c1 c2 : Fin q → Prop) [DecidablePred c1] [DecidablePred c2] (a b : Fin q → K)
+    (ha : ∀ i, c1 i → 0 < a i) (hb : ∀ i, c2 i → 0 < b i) (init : K × K) (h1 : 0 < init.1) (h2 : 0 < init.2) :
+    let r := Fin.foldl q (fun acc i => (if c1 i then vmin acc.1 (a i) else acc.1, if c2 i then vmin acc.2 (b i) else acc.2)) init
+    (0 < r.1 ∧ r.1 ≤ init.1 ∧ ∀ i, c1 i → r.1 ≤ a i) ∧ (0 < r.2 ∧ r.2 ≤ init.2 ∧ ∀ i, c2 i → r.2 ≤ b i) := by
+  induction q with
+  | zero => simp only [Fin.foldl_zero]; exact ⟨⟨h1, le_refl _, fun i => i.elim0⟩, ⟨h2, le_refl _, fun i => i.elim0⟩⟩
+  | succ q ih =>
+    simp only [Fin.foldl_succ_last]
+    have I := ih (fun i => c1 i.castSucc) (fun i => c2 i.castSucc) (fun i => a i.castSucc) (fun i => b i.castSucc)
+      (fun i h => ha _ h) (fun i h => hb _ h)
+    simp only at I
+    generalize Fin.foldl q (fun acc i => (if c1 i.castSucc then vmin acc.1 (a i.castSucc) else acc.1,
+      if c2 i.castSucc then vmin acc.2 (b i.castSucc) else acc.2)) init = r at I
+    obtain ⟨⟨p1, l1, b1⟩, ⟨p2, l2, b2⟩⟩ := I
+    constructor
+    · by_cases hc : c1 (Fin.last q)
+      · simp only [hc, if_true]
+        refine ⟨vmin_pos _ _ p1 (ha _ hc), le_trans (vmin_le_left _ _) l1, fun i hi => ?_⟩
+        rcases Fin.eq_castSucc_or_eq_last i with ⟨j, rfl⟩ | rfl
+        · exact le_trans (vmin_le_left _ _) (b1 j hi)
+        · exact vmin_le_right _ _
+      · simp only [hc, if_false]
+        refine ⟨p1, l1, fun i hi => ?_⟩
+        rcases Fin.eq_castSucc_or_eq_last i with ⟨j, rfl⟩ | rfl
+        · exact b1 j hi
+        · exact absurd hi hc
+    · by_cases hc : c2 (Fin.last q)
+      · simp only [hc, if_true]
+        refine ⟨vmin_pos _ _ p2 (hb _ hc), le_trans (vmin_le_left _ _) l2, fun i hi => ?_⟩
+        rcases Fin.eq_castSucc_or_eq_last i with ⟨j, rfl⟩ | rfl
+        · exact le_trans (vmin_le_left _ _) (b2 j hi)
+        · exact vmin_le_right _ _
+      · simp only [hc, if_false]
+        refine ⟨p2, l2, fun i hi => ?_⟩
+        rcases Fin.eq_castSucc_or_eq_last i with ⟨j, rfl⟩ | rfl
+        · exact b2 j hi
+        · exact absurd hi hc
+
+/-- the iterate is strictly inside the cone on every active block -/
+structure InCone (d : Data K n p m) (w : Work K n p m) : Prop where
+  s : ∀ i : Fin m, 0 < w.s[i]
+  z : ∀ i : Fin m, 0 < w.z[i]
+  s_lb : ∀ i : Fin n, i.val < d.lb.cnt → 0 < w.s_lb[i]
+  z_lb : ∀ i : Fin n, i.val < d.lb.cnt → 0 < w.z_lb[i]
+  s_ub : ∀ i : Fin n, i.val < d.ub.cnt → 0 < w.s_ub[i]
+  z_ub : ∀ i : Fin n, i.val < d.ub.cnt → 0 < w.z_ub[i]
+
+theorem neg_div_pos (s ds : K) (hs : 0 < s) (hd : ds < 0) : 0 < -s / ds :=
+  div_pos_of_neg_of_neg (neg_lt_zero.mpr hs) hd
+
+theorem stepToBoundary_spec (d : Data K n p m) (w : Work K n p m) (dir : Step K n p m) (hc : InCone d w) :
+    let r := stepToBoundary d w dir
+    (0 < r.1 ∧ r.1 ≤ 1) ∧ (0 < r.2 ∧ r.2 ≤ 1) ∧
+    (∀ i : Fin m, dir.s[i] < 0 → r.1 ≤ -w.s[i] / dir.s[i]) ∧ (∀ i : Fin m, dir.z[i] < 0 → r.2 ≤ -w.z[i] / dir.z[i]) ∧
+    (∀ i : Fin n, i.val < d.lb.cnt → dir.s_lb[i] < 0 → r.1 ≤ -w.s_lb[i] / dir.s_lb[i]) ∧
+    (∀ i : Fin n, i.val < d.lb.cnt → dir.z_lb[i] < 0 → r.2 ≤ -w.z_lb[i] / dir.z_lb[i]) ∧
+    (∀ i : Fin n, i.val < d.ub.cnt → dir.s_ub[i] < 0 → r.1 ≤ -w.s_ub[i] / dir.s_ub[i]) ∧
+    (∀ i : Fin n, i.val < d.ub.cnt → dir.z_ub[i] < 0 → r.2 ≤ -w.z_ub[i] / dir.z_ub[i]) := by
+  -- the three folds in the shape of `fold_min_spec`
+  have e1 : (fun (acc : K × K) (i : Fin m) =>
+        ((if dir.s[i] < 0 then vmin acc.1 (-w.s[i] / dir.s[i]) else acc.1),
+         (if dir.z[i] < 0 then vmin acc.2 (-w.z[i] / dir.z[i]) else acc.2))) =
+      (fun (acc : K × K) (i : Fin m) => (if (fun i : Fin m => dir.s[i] < 0) i then vmin acc.1 ((fun i : Fin m => -w.s[i] / dir.s[i]) i) else acc.1,
+                     if (fun i : Fin m => dir.z[i] < 0) i then vmin acc.2 ((fun i : Fin m => -w.z[i] / dir.z[i]) i) else acc.2)) := rfl
+  have e2 : (fun (acc : K × K) (i : Fin n) => if i.val < d.lb.cnt then
+        ((if dir.s_lb[i] < 0 then vmin acc.1 (-w.s_lb[i] / dir.s_lb[i]) else acc.1),
+         (if dir.z_lb[i] < 0 then vmin acc.2 (-w.z_lb[i] / dir.z_lb[i]) else acc.2)) else acc) =
+      (fun (acc : K × K) (i : Fin n) => (if (fun i : Fin n => i.val < d.lb.cnt ∧ dir.s_lb[i] < 0) i then vmin acc.1 ((fun i : Fin n => -w.s_lb[i] / dir.s_lb[i]) i) else acc.1,
+                     if (fun i : Fin n => i.val < d.lb.cnt ∧ dir.z_lb[i] < 0) i then vmin acc.2 ((fun i : Fin n => -w.z_lb[i] / dir.z_lb[i]) i) else acc.2)) := by
+    funext acc i
+    by_cases h : i.val < d.lb.cnt <;> simp [h]
+  have e3 : (fun (acc : K × K) (i : Fin n) => if i.val < d.ub.cnt then
+        ((if dir.s_ub[i] < 0 then vmin acc.1 (-w.s_ub[i] / dir.s_ub[i]) else acc.1),
+         (if dir.z_ub[i] < 0 then vmin acc.2 (-w.z_ub[i] / dir.z_ub[i]) else acc.2)) else acc) =
+      (fun (acc : K × K) (i : Fin n) => (if (fun i : Fin n => i.val < d.ub.cnt ∧ dir.s_ub[i] < 0) i then vmin acc.1 ((fun i : Fin n => -w.s_ub[i] / dir.s_ub[i]) i) else acc.1,
+                     if (fun i : Fin n => i.val < d.ub.cnt ∧ dir.z_ub[i] < 0) i then vmin acc.2 ((fun i : Fin n => -w.z_ub[i] / dir.z_ub[i]) i) else acc.2)) := by
+    funext acc i
+    by_cases h : i.val < d.ub.cnt <;> simp [h]
+  unfold stepToBoundary
+  simp only [e1, e2, e3]
+  have A := fold_min_spec m (fun i : Fin m => dir.s[i] < 0) (fun i : Fin m => dir.z[i] < 0) (fun i : Fin m => -w.s[i] / dir.s[i]) (fun i : Fin m => -w.z[i] / dir.z[i])
+    (fun i h => neg_div_pos _ _ (hc.s i) h) (fun i h => neg_div_pos _ _ (hc.z i) h) ((1 : K), (1 : K)) one_pos one_pos
+  simp only at A
+  generalize Fin.foldl m _ ((1 : K), (1 : K)) = a1 at A ⊢
+  obtain ⟨⟨pa1, la1, ba1⟩, ⟨pa2, la2, ba2⟩⟩ := A
+  have B := fold_min_spec n (fun i : Fin n => i.val < d.lb.cnt ∧ dir.s_lb[i] < 0) (fun i : Fin n => i.val < d.lb.cnt ∧ dir.z_lb[i] < 0)
+    (fun i : Fin n => -w.s_lb[i] / dir.s_lb[i]) (fun i : Fin n => -w.z_lb[i] / dir.z_lb[i])
+    (fun i h => neg_div_pos _ _ (hc.s_lb i h.1) h.2) (fun i h => neg_div_pos _ _ (hc.z_lb i h.1) h.2) a1 pa1 pa2
+  simp only at B
+  generalize Fin.foldl n _ a1 = a2 at B ⊢
+  obtain ⟨⟨pb1, lb1, bb1⟩, ⟨pb2, lb2, bb2⟩⟩ := B
+  have C := fold_min_spec n (fun i : Fin n => i.val < d.ub.cnt ∧ dir.s_ub[i] < 0) (fun i : Fin n => i.val < d.ub.cnt ∧ dir.z_ub[i] < 0)
+    (fun i : Fin n => -w.s_ub[i] / dir.s_ub[i]) (fun i : Fin n => -w.z_ub[i] / dir.z_ub[i])
+    (fun i h => neg_div_pos _ _ (hc.s_ub i h.1) h.2) (fun i h => neg_div_pos _ _ (hc.z_ub i h.1) h.2) a2 pb1 pb2
+  simp only at C
+  generalize Fin.foldl n _ a2 = a3 at C ⊢
+  obtain ⟨⟨pc1, lc1, bc1⟩, ⟨pc2, lc2, bc2⟩⟩ := C
+  refine ⟨⟨pc1, le_trans lc1 (le_trans lb1 la1)⟩, ⟨pc2, le_trans lc2 (le_trans lb2 la2)⟩, ?_, ?_, ?_, ?_, ?_, ?_⟩
+  · intro i h; exact le_trans lc1 (le_trans lb1 (ba1 i h))
+  · intro i h; exact le_trans lc2 (le_trans lb2 (ba2 i h))
+  · intro i hi h; exact le_trans lc1 (bb1 i ⟨hi, h⟩)
+  · intro i hi h; exact le_trans lc2 (bb2 i ⟨hi, h⟩)
+  · intro i hi h; exact bc1 i ⟨hi, h⟩
+  · intro i hi h; exact bc2 i ⟨hi, h⟩
+
+theorem pos_step (s ds α τ : K) (hs : 0 < s) (hα : 0 < α) (hτ0 : 0 < τ) (hτ1 : τ < 1) (hb : ds < 0 → α ≤ -s / ds) :
+    0 < s + α * τ * ds := by
+  by_cases hd : ds < 0
+  · have h1 : -s ≤ α * ds := by
+      have := mul_le_mul_of_nonpos_right (hb hd) (le_of_lt hd)
+      rwa [div_mul_cancel₀ _ (ne_of_lt hd)] at this
+    have h2 : τ * (-s) ≤ τ * (α * ds) := mul_le_mul_of_nonneg_left h1 (le_of_lt hτ0)
+    have h3 : 0 < s * (1 - τ) := mul_pos hs (by linarith)
+    nlinarith
+  · have hd' : 0 ≤ ds := not_lt.mp hd
+    have : 0 ≤ α * τ * ds := mul_nonneg (le_of_lt (mul_pos hα hτ0)) hd'
+    linarith
+
+/-- **C08, the cone is preserved by the step rule, for every direction.** Whatever direction the linear solve returned
+    (exact, refined, inexact or garbage), damping the fraction-to-boundary step by `0 < τ < 1` keeps every active slack and
+    multiplier strictly positive. -/
+theorem step_in_cone (d : Data K n p m) (w : Work K n p m) (dir : Step K n p m) (hc : InCone d w) (τ : K)
+    (hτ0 : 0 < τ) (hτ1 : τ < 1) :
+    let r := stepToBoundary d w dir
+    (∀ i : Fin m, 0 < w.s[i] + r.1 * τ * dir.s[i]) ∧ (∀ i : Fin m, 0 < w.z[i] + r.2 * τ * dir.z[i]) ∧
+    (∀ i : Fin n, i.val < d.lb.cnt → 0 < w.s_lb[i] + r.1 * τ * dir.s_lb[i]) ∧
+    (∀ i : Fin n, i.val < d.lb.cnt → 0 < w.z_lb[i] + r.2 * τ * dir.z_lb[i]) ∧
+    (∀ i : Fin n, i.val < d.ub.cnt → 0 < w.s_ub[i] + r.1 * τ * dir.s_ub[i]) ∧
+    (∀ i : Fin n, i.val < d.ub.cnt → 0 < w.z_ub[i] + r.2 * τ * dir.z_ub[i]) := by
+  obtain ⟨⟨p1, _⟩, ⟨p2, _⟩, b1, b2, b3, b4, b5, b6⟩ := stepToBoundary_spec d w dir hc
+  exact ⟨fun i => pos_step _ _ _ _ (hc.s i) p1 hτ0 hτ1 (b1 i), fun i => pos_step _ _ _ _ (hc.z i) p2 hτ0 hτ1 (b2 i),
+    fun i hi => pos_step _ _ _ _ (hc.s_lb i hi) p1 hτ0 hτ1 (b3 i hi), fun i hi => pos_step _ _ _ _ (hc.z_lb i hi) p2 hτ0 hτ1 (b4 i hi),
+    fun i hi => pos_step _ _ _ _ (hc.s_ub i hi) p1 hτ0 hτ1 (b5 i hi), fun i hi => pos_step _ _ _ _ (hc.z_ub i hi) p2 hτ0 hτ1 (b6 i hi)⟩
+
+@[simp] theorem upd_s (e : Env K n p m) (w : Work K n p m) (info : Info K) : (updateNrResiduals e w info).1.s = w.s := by
+  unfold updateNrResiduals; rfl
+@[simp] theorem upd_z (e : Env K n p m) (w : Work K n p m) (info : Info K) : (updateNrResiduals e w info).1.z = w.z := by
+  unfold updateNrResiduals; rfl
+@[simp] theorem upd_s_lb (e : Env K n p m) (w : Work K n p m) (info : Info K) : (updateNrResiduals e w info).1.s_lb = w.s_lb := by
+  unfold updateNrResiduals; rfl
+@[simp] theorem upd_z_lb (e : Env K n p m) (w : Work K n p m) (info : Info K) : (updateNrResiduals e w info).1.z_lb = w.z_lb := by
+  unfold updateNrResiduals; rfl
+@[simp] theorem upd_s_ub (e : Env K n p m) (w : Work K n p m) (info : Info K) : (updateNrResiduals e w info).1.s_ub = w.s_ub := by
+  unfold updateNrResiduals; rfl
+@[simp] theorem upd_z_ub (e : Env K n p m) (w : Work K n p m) (info : Info K) : (updateNrResiduals e w info).1.z_ub = w.z_ub := by
+  unfold updateNrResiduals; rfl
+
+theorem headUpd_get' (b : BoxSide K n) (old : Vec K n) (f : Fin n → K) (i : Fin n) :
+    (b.headUpd old f)[i] = if i.val < b.cnt then f i else old[i] := by
+  simp only [BoxSide.headUpd, BoxSide.act, Vector.getElem_ofFn, Fin.getElem_fin, Fin.eta]
+  by_cases h : i.val < b.cnt <;> simp [h]
+
+theorem inCone_update (d : Data K n p m) (w : Work K n p m) (dir : Step K n p m) (τ : K) (hc : InCone d w)
+    (hτ0 : 0 < τ) (hτ1 : τ < 1) (w' : Work K n p m)
+    (hs : w'.s = Vector.ofFn fun i => w.s[i] + (stepToBoundary d w dir).1 * τ * dir.s[i])
+    (hz : w'.z = Vector.ofFn fun i => w.z[i] + (stepToBoundary d w dir).2 * τ * dir.z[i])
+    (hsl : w'.s_lb = d.lb.headUpd w.s_lb fun i => w.s_lb[i] + (stepToBoundary d w dir).1 * τ * dir.s_lb[i])
+    (hzl : w'.z_lb = d.lb.headUpd w.z_lb fun i => w.z_lb[i] + (stepToBoundary d w dir).2 * τ * dir.z_lb[i])
+    (hsu : w'.s_ub = d.ub.headUpd w.s_ub fun i => w.s_ub[i] + (stepToBoundary d w dir).1 * τ * dir.s_ub[i])
+    (hzu : w'.z_ub = d.ub.headUpd w.z_ub fun i => w.z_ub[i] + (stepToBoundary d w dir).2 * τ * dir.z_ub[i]) :
+    InCone d w' := by
+  obtain ⟨c1, c2, c3, c4, c5, c6⟩ := step_in_cone d w dir hc τ hτ0 hτ1
+  refine ⟨fun i => ?_, fun i => ?_, fun i hi => ?_, fun i hi => ?_, fun i hi => ?_, fun i hi => ?_⟩
+  · rw [hs]; simp only [Fin.getElem_fin, Vector.getElem_ofFn]; exact c1 i
+  · rw [hz]; simp only [Fin.getElem_fin, Vector.getElem_ofFn]; exact c2 i
+  · rw [hsl, headUpd_get']; simp only [hi, if_true]; exact c3 i hi
+  · rw [hzl, headUpd_get']; simp only [hi, if_true]; exact c4 i hi
+  · rw [hsu, headUpd_get']; simp only [hi, if_true]; exact c5 i hi
+  · rw [hzu, headUpd_get']; simp only [hi, if_true]; exact c6 i hi
+
+/-- **C08, one full iteration keeps the iterate in the cone** — for every back end, every KKT state (hence every
+    factorisation outcome: when `KKT.solve` returns nothing the old direction is used), refinement on or off. -/
+theorem stepNumOp_in_cone (e : Env K n p m) (refineOn : Bool) (kkt : KKT K n p m) (w : Work K n p m) (info : Info K)
+    (hτ0 : 0 < e.st.tau) (hτ1 : e.st.tau < 1) (hc : InCone e.data w) :
+    InCone e.data (stepNumOp e refineOn kkt w info).1 := by
+  unfold stepNumOp
+  by_cases hm : m + e.data.lb.cnt + e.data.ub.cnt ≠ 0
+  · simp only [hm, ne_eq, not_false_eq_true, if_true]
+    exact inCone_update e.data w _ e.st.tau hc hτ0 hτ1 _ (by simp only [upd_s] <;> rfl) (by simp only [upd_z] <;> rfl)
+      (by simp only [upd_s_lb] <;> rfl) (by simp only [upd_z_lb] <;> rfl) (by simp only [upd_s_ub] <;> rfl) (by simp only [upd_z_ub] <;> rfl)
+  · simp only [hm, if_false]
+    refine ⟨fun i => ?_, fun i => ?_, fun i hi => ?_, fun i hi => ?_, fun i hi => ?_, fun i hi => ?_⟩
+    · simp only [upd_s]; exact hc.s i
+    · simp only [upd_z]; exact hc.z i
+    · simp only [upd_s_lb]; exact hc.s_lb i hi
+    · simp only [upd_z_lb]; exact hc.z_lb i hi
+    · simp only [upd_s_ub]; exact hc.s_ub i hi
+    · simp only [upd_z_ub]; exact hc.z_ub i hi
+
+/-- every numeric operation of the loop preserves `Inv` -/
+structure OpsPreserve {σ : Type} (ops : LoopOps K σ) (Inv : σ → Prop) : Prop where
+  head : ∀ b s info, Inv s → Inv (ops.head b s info).1
+  reg : ∀ s info, Inv s → Inv (ops.reg s info)
+  shift : ∀ s info, Inv s → Inv (ops.shift s info).1
+  rescale : ∀ s info, Inv s → Inv (ops.rescale s info)
+  factor : ∀ b s, Inv s → Inv (ops.factor b s).1
+  stepNum : ∀ b s info, Inv s → Inv (ops.stepNum b s info).1
+  applyFlags : ∀ s a b, Inv s → Inv (ops.applyFlags s a b)
+
+/-- an invariant of the numeric operations is an invariant of the whole loop, whatever exit it takes -/
+theorem loopG_invariant {σ : Type} (st : Settings K) (cs : Consts K) (ops : LoopOps K σ) (Inv : σ → Prop)
+    (hp : OpsPreserve ops Inv) (c : Ctrl) (s : σ) (info : Info K) (h : Inv s) :
+    Inv (loopG st cs ops c s info).1.2.1 := by
+  fun_induction loopG st cs ops c s info
+  all_goals first
+    | exact h
+    | exact hp.head _ _ _ h
+    | exact hp.reg _ _ (hp.head _ _ _ h)
+    | exact hp.factor _ _ (hp.rescale _ _ (hp.shift _ _ (hp.reg _ _ (hp.head _ _ _ h))))
+    | (rename_i ih; exact ih (hp.applyFlags _ _ _ (hp.stepNum _ _ _ (hp.factor _ _ (hp.rescale _ _ (hp.shift _ _ (hp.reg _ _ (hp.head _ _ _ h))))))))
+    | (rename_i ih; exact ih (hp.factor _ _ (hp.rescale _ _ (hp.shift _ _ (hp.reg _ _ (hp.head _ _ _ h))))))
+
+theorem InCone.of_fields {d : Data K n p m} {w w' : Work K n p m} (hc : InCone d w)
+    (h1 : w'.s = w.s) (h2 : w'.z = w.z) (h3 : w'.s_lb = w.s_lb) (h4 : w'.z_lb = w.z_lb) (h5 : w'.s_ub = w.s_ub) (h6 : w'.z_ub = w.z_ub) :
+    InCone d w' :=
+  ⟨fun i => by rw [h1]; exact hc.s i, fun i => by rw [h2]; exact hc.z i, fun i hi => by rw [h3]; exact hc.s_lb i hi,
+   fun i hi => by rw [h4]; exact hc.z_lb i hi, fun i hi => by rw [h5]; exact hc.s_ub i hi, fun i hi => by rw [h6]; exact hc.z_ub i hi⟩
+
+theorem shiftOp_in_cone (e : Env K n p m) (w : Work K n p m) (info : Info K) (heps : 0 ≤ e.cs.machEps) (hc : InCone e.data w) :
+    InCone e.data (shiftOp e w info).1 := by
+  unfold shiftOp
+  refine ⟨fun i => hc.s i, fun i => ?_, fun i hi => hc.s_lb i hi, fun i hi => ?_, fun i hi => hc.s_ub i hi, fun i hi => ?_⟩
+  · simp only
+    split
+    · simp only [Fin.getElem_fin, Vector.getElem_ofFn]; exact add_pos_of_pos_of_nonneg (hc.z i) heps
+    · exact hc.z i
+  · simp only
+    split
+    · rw [headUpd_get']; simp only [hi, if_true]; exact add_pos_of_pos_of_nonneg (hc.z_lb i hi) heps
+    · exact hc.z_lb i hi
+  · simp only
+    split
+    · rw [headUpd_get']; simp only [hi, if_true]; exact add_pos_of_pos_of_nonneg (hc.z_ub i hi) heps
+    · exact hc.z_ub i hi
+
+/-- every numeric operation of the real solver keeps the iterate strictly inside the cone -/
+theorem realOps_preserve_cone (e : Env K n p m) (hτ0 : 0 < e.st.tau) (hτ1 : e.st.tau < 1) (heps : 0 ≤ e.cs.machEps) :
+    OpsPreserve (realOps e) (fun s : NumState K n p m => InCone e.data s.1) where
+  head := by
+    intro b s info h
+    simp only [realOps, headInfo]
+    cases b
+    · exact h
+    · exact h.of_fields (upd_s _ _ _) (upd_z _ _ _) (upd_s_lb _ _ _) (upd_z_lb _ _ _) (upd_s_ub _ _ _) (upd_z_ub _ _ _)
+  reg := fun s info h => h.of_fields rfl rfl rfl rfl rfl rfl
+  shift := fun s info h => shiftOp_in_cone e s.1 info heps h
+  rescale := fun s info h => h
+  factor := fun b s h => h
+  stepNum := fun b s info h => stepNumOp_in_cone e b s.2 s.1 info hτ0 hτ1 h
+  applyFlags := by
+    intro s a b h
+    simp only [realOps, applyFlagsOp]
+    cases a <;> cases b <;> simp only [Bool.false_eq_true, if_false, if_true]
+    · exact h
+    · split <;> exact h.of_fields rfl rfl rfl rfl rfl rfl
+    · exact h.of_fields rfl rfl rfl rfl rfl rfl
+    · split <;> exact h.of_fields rfl rfl rfl rfl rfl rfl
+
+/-- **C08, cone invariant of the whole main loop.** If the iterate entering the loop is strictly inside the cone (the
+    solver sets `s = z = 1` on every active block before), it is so at **every** exit — SOLVED, either infeasibility
+    verdict, MAX_ITER at any budget, NUMERICS — for every back end, every factorisation-failure pattern, refinement on or
+    off, with valid `0 < τ < 1`. -/
+theorem mainLoop_in_cone (e : Env K n p m) (ls : LoopState K n p m) (hτ0 : 0 < e.st.tau) (hτ1 : e.st.tau < 1)
+    (heps : 0 ≤ e.cs.machEps) (hc : InCone e.data ls.w) : InCone e.data (mainLoop e ls).1.w := by
+  unfold mainLoop
+  exact loopG_invariant e.st e.cs (realOps e) (fun s : NumState K n p m => InCone e.data s.1)
+    (realOps_preserve_cone e hτ0 hτ1 heps) ls.c (ls.w, ls.kkt) ls.info hc
+
+end cone
 end Piqp.C08
